@@ -4,7 +4,7 @@ from vlib import *
 import gen_vi
 from props import vilib
 
-PROP = "C09"; MODULES = ["NeatviVerif.Props.C09", "NeatviVerif.Props.C09b"]; MODE = "vi"
+PROP = "C09"; MODULES = ["NeatviVerif.Props.C09", "NeatviVerif.Props.C09b", "NeatviVerif.Props.C09c"]; MODE = "vi"
 
 def pair_stream(probe, pairs, rule):
     """run both members of every pair, hand each pair's two results to the driver (stream vi09), and the
